@@ -90,7 +90,7 @@ func genOn(r *Rand, la, ra string, lcols, rcols []string, lstr, rstr string, tag
 func genC04(r *Rand, tier string) []Case {
 	n := 60
 	if tier == "thorough" {
-		n = 700
+		n = 320
 	}
 	var out []Case
 	strats := []string{"auto", "hash", "straight", "parallel", "parallelhash", "parallelstraight"}
